@@ -51,6 +51,9 @@ package registration
 //@   ensures[C13,* failed] err != nil ==> unchangedNode(k)
 //@   ensures[C13,* others] forall id String :: id != k ==> unchangedNode(id)
 //@   ensures[* skipped] opts(opt).WithSkipStorage ==> unchangedNode(k)
+// C12: the caller's storage wrapper reaches the Store of the node record and the Load of the roots
+//@   call types.(*NodeInformation).Store assert[C12 wrapperpassed] opts(arg3).WithStorageWrapper == opts(opt).WithStorageWrapper
+//@   call types.LoadRootCertificates assert[C12 wrapperpassedload] opts(arg2).WithStorageWrapper == opts(opt).WithStorageWrapper
 // C04 (and the node clause of C09): every issued certificate is a non-CA client-authentication leaf for the
 // request's certificate key, named by its key id, with exactly the validity window of the issuing root
 // certificate, signed by that root's key; one chain per stored root, current first
@@ -93,6 +96,7 @@ package registration
 //@   ensures[C13,* consumed] reqInfo != nil && tokenNonce != nil && !unchangedNode(k) ==> !StHas("token", id)
 //@   ensures[C13,* othernodes] forall j String :: reqInfo == nil || j != k ==> unchangedNode(j)
 //@   ensures[C13,* othertokens] forall j String :: tokenNonce == nil || j != id ==> unchangedToken(j)
+//@   call types.LoadServerLedActivationToken assert[C12 wrapperpassedload] opts(arg3).WithStorageWrapper == opts(opt).WithStorageWrapper
 //@   modifies StToken, StNodeInfo, nosharedappend
 
 //@ func registration.CreateServerLedActivationToken
@@ -105,6 +109,7 @@ package registration
 //@   ensures[C06 id] err == nil ==> exists h String, n String :: len(h) == 32 && len(n) == 32 && ret == b58(hmacSum(h, n))
 //@   ensures[C13 othertokens] forall j String :: j != ret ==> unchangedToken(j)
 //@   ensures[C13 failedclean] err != nil ==> forall j String :: StHas("token", j) == old(StHas("token", j))
+//@   call types.(*ServerLedActivationToken).Store assert[C12 wrapperpassed] opts(arg3).WithStorageWrapper == opts(opt).WithStorageWrapper
 //@   modifies StToken
 
 // ---------------------------------------------------------------- AuthorizeNode / FetchNodeCredentials (C01, C03, C13, C15)
